@@ -246,3 +246,24 @@ JOBS['C18'] = [
     {'name': 'shaping', 'harness': 'c18_shape.c', 'units': [], 'defs': {},
      'expect_reach': ['end', 'medial', 'final', 'initial', 'isolated', 'nonletter'], 'timeout': {'quick': 280, 'thorough': 1700}},
 ]
+
+# ---------------------------------------------------------------- C05
+META['C05'] = {
+    'bounds': {'quick': 'vi: every stream of 2 keys (bytes 1..127) on the 3-line buffer with wide/combining/RTL/tab characters in a 6x20 window, and every single key on 4 buffers x window sizes {2x2, 3x5, 6x20, 25x80} x 5 option vectors; ex: every command line of 21 prefixes + 2 free bytes on that buffer, 1 free byte on the others; command lines of length 505..516 of 12 filler kinds; (all other checks also run with the same memory/uninitialised/budget detection on every path)',
+               'thorough': 'vi: 2 keys on all buffers; 3 keys from the 40 most common command keys; ex: 3 free bytes'},
+    'outside': 'streams longer than the bound (the per-command structure is the argument for more, not a solver result); keys >= 0x80 outside typed text; real terminals, signals, child processes, sockets (the environment model refuses them; only the failure paths run); memory exhaustion',
+    'assumptions': ['when the given keys run out the input continues with ESC :q! (vi) or q! (ex) so that every path is given its quit command', 'instruction budget per path 40 M (vi) / 20 M (ex) IR steps: more is reported as a possible hang'],
+    'level': 'Bounded, solver-decided memory safety and termination: every path of the real main() over all streams within the bound runs under the object-bounds, liveness, initialisation and budget checks.',
+}
+_c05_cfg = [(b, w, i) for b in (0, 1, 2, 3) for (w, i) in ((0, 0), (1, 1), (2, 2), (3, 3), (0, 4))]
+JOBS['C05'] = [
+    {'name': 'vi_keys2', 'harness': 'c05_vi.c', 'units': 'ALL', 'defs': {'NK': 2, 'BUF': 2, 'WIN': 0, 'INIT': 0},
+     'expect_reach': ['end'], 'timeout': {'quick': 280, 'thorough': 1700}, 'max_steps': 40000000, 'validate': {'quick': 6, 'thorough': 12}},
+    {'name': 'vi_keys1', 'harness': 'c05_vi.c', 'units': 'ALL', 'defs': {'NK': 1},
+     'variants': [{'BUF': b, 'WIN': w, 'INIT': i} for (b, w, i) in _c05_cfg],
+     'expect_reach': ['end'], 'timeout': {'quick': 280, 'thorough': 1700}, 'max_steps': 40000000, 'validate': {'quick': 2, 'thorough': 4}},
+    {'name': 'ex_lines', 'harness': 'c05_ex.c', 'units': 'ALL', 'defs': {'quick': {'NB': 2, 'BUF': 2}, 'thorough': {'NB': 3, 'BUF': 2}},
+     'expect_reach': ['end'], 'timeout': {'quick': 280, 'thorough': 1700}},
+    {'name': 'ex_limit', 'harness': 'c05_ex.c', 'units': 'ALL', 'defs': {'MODE': 1, 'BUF': 1},
+     'expect_reach': ['end'], 'timeout': {'quick': 280, 'thorough': 1700}},
+]
